@@ -104,6 +104,7 @@ type Contracts struct {
 	BVKinds map[types.BasicKind]bool
 	Files   []string
 	Assumes []string
+	Logged  map[string]bool
 }
 
 var basicKindByName = map[string]types.BasicKind{
@@ -121,7 +122,7 @@ func parseExprAt(text, where string) (ast.Expr, error) {
 }
 
 func loadContracts(dir string) (*Contracts, error) {
-	cs := &Contracts{Funcs: map[string]*FuncContract{}, Externs: map[string]*FuncContract{}, Pures: map[string]*PureFunc{}, BVKinds: map[types.BasicKind]bool{}}
+	cs := &Contracts{Funcs: map[string]*FuncContract{}, Externs: map[string]*FuncContract{}, Pures: map[string]*PureFunc{}, BVKinds: map[types.BasicKind]bool{}, Logged: map[string]bool{}}
 	files, _ := filepath.Glob(filepath.Join(dir, "*_contracts_verif.go"))
 	sort.Strings(files)
 	for _, f := range files {
@@ -199,6 +200,11 @@ func (cs *Contracts) parseFile(path string) error {
 					return fmt.Errorf("%s: unknown kind %s", where, k)
 				}
 				cs.BVKinds[bk] = true
+			}
+		case "log":
+			// log invoke.ReadByte : record the results of calls to this callee in a ghost log
+			for _, n := range strings.Fields(rest) {
+				cs.Logged[n] = true
 			}
 		case "pure", "uninterp":
 			pf, err := parsePure(rest, word == "uninterp", where)
